@@ -13,6 +13,7 @@ Theorem C15_source_shape :
   s_customize_special_keys = expected_special_keys /\
   s_customize_unbounded_aliases = expected_unbounded /\
   child_attrs_copied = true /\ subclass_resets_variants = true /\ customized_keeps_extends = true /\
+  memberless_base_kept = true /\
   flat_parent_first = true /\ evolution_propagates = true /\
   decimal_msl_from_request = true /\ decimal_msl_add = 2 /\
   odict_setitem_new_only = true /\ odict_insert_moves = true.
